@@ -4,6 +4,7 @@ keeps the control plane's view of what it asked for, a reference reading of vali
 state each property directly on the implementation's observations (independent of the Coq model)."""
 import copy
 import json
+import random
 
 import pfcp as P
 
@@ -20,7 +21,7 @@ EPOCH = 1641092645  # l1Epoch in the harness
 
 
 def default_cfg(**kw):
-    cfg = {"ueip_alloc": True, "pool": "10.250.0.0/28", "end_marker": True, "access_ip": "198.18.0.1",
+    cfg = {"ueip_alloc": True, "pool": "10.250.0.0/28", "end_marker": True, "hb_timer": False, "access_ip": "198.18.0.1",
            "core_ip": "198.19.0.1", "n4addr": "127.0.0.9", "node_id": "", "dnn": "", "qos": []}
     cfg.update(kw)
     return cfg
@@ -59,6 +60,8 @@ def pdr_ie(kind, s):
             pdi.append(P.sdf_filter(s["sdf"]))
         if s.get("appid") is not None:
             pdi.append(P.app_id(s["appid"]))
+        if s.get("perm"):
+            random.Random(s["perm"]).shuffle(pdi)      # the order of the members of a grouped IE is free
         kids.append(P.grouped(P.PDI, *pdi))
     if s.get("ohr"):
         kids.append(P.u8(P.OHR, 0))
@@ -66,6 +69,22 @@ def pdr_ie(kind, s):
         kids.append(P.u32(P.FAR_ID, s["far"]))
     for q in s.get("qers", []):
         kids.append(P.u32(P.QER_ID, q))
+    if s.get("perm"):
+        # members in another order; the QER IDs keep their relative order (it carries meaning)
+        r = random.Random(s["perm"] + 1)
+        qs = [k for k in kids if k[:2] == P.u32(P.QER_ID, 0)[:2]]
+        rest = [k for k in kids if k[:2] != P.u32(P.QER_ID, 0)[:2]]
+        r.shuffle(rest)
+        pos = sorted(r.sample(range(len(rest) + len(qs)), len(qs)))
+        kids = []
+        qi = ri = 0
+        for i in range(len(rest) + len(qs)):
+            if qi < len(qs) and i == pos[qi]:
+                kids.append(qs[qi])
+                qi += 1
+            else:
+                kids.append(rest[ri])
+                ri += 1
     return P.grouped(kind, *kids)
 
 
@@ -87,7 +106,11 @@ def far_ie(kind, s):
             f.append(P.ohc(o[0], o[1]))
         if fw.get("smflags") is not None:
             f.append(P.u8(P.SMREQ_FLAGS, fw["smflags"]))
+        if s.get("perm"):
+            random.Random(s["perm"]).shuffle(f)
         kids.append(P.grouped(P.FWD_PARAMS if kind == P.CREATE_FAR else P.UPD_FWD_PARAMS, *f))
+    if s.get("perm"):
+        random.Random(s["perm"] + 1).shuffle(kids)
     return P.grouped(kind, *kids)
 
 
@@ -103,6 +126,8 @@ def qer_ie(kind, s):
         kids.append(P.rate(P.MBR, s["mbr"][0], s["mbr"][1]))
     if "gbr" in s:
         kids.append(P.rate(P.GBR, s["gbr"][0], s["gbr"][1]))
+    if s.get("perm"):
+        random.Random(s["perm"]).shuffle(kids)
     return P.grouped(kind, *kids)
 
 
@@ -478,6 +503,8 @@ class Gen:
                       "proto": pr[1], "ports": (port, port)}
             ul["sdf"], ul["sdf_sem"] = sd["text"], sd
             dl["sdf"], dl["sdf_sem"] = sd["text"], sd
+        if r.random() < 0.3:
+            ul["perm"], dl["perm"] = r.randrange(1, 1 << 30), r.randrange(1, 1 << 30)
         return ul, dl
 
     def new_far_pair(self, n):
@@ -487,6 +514,8 @@ class Gen:
         dlf = {"id": 2 * n + 2, "action": act}
         if act & 2:
             dlf["fwd"] = {"dst_if": 0, "ohc": (self._teid(), ip(192, 168, r.randrange(4), r.randrange(1, 250)))}
+        if r.random() < 0.3:
+            ulf["perm"], dlf["perm"] = r.randrange(1, 1 << 30), r.randrange(1, 1 << 30)
         return ulf, dlf
 
     def new_qer(self, qid):
@@ -495,7 +524,8 @@ class Gen:
         mbr = r.choice([(0, 0), (1000, 2000), (1, 1), (10 ** 6, 10 ** 7), ((1 << 40) - 1, (1 << 40) - 1)])
         if gbr[0] > mbr[0] or gbr[1] > mbr[1]:
             gbr = (0, 0)
-        return {"id": qid, "qfi": r.choice([0, 5, 9, 63]), "gate": (r.choice([0, 0, 0, 1]), r.choice([0, 0, 0, 1])), "mbr": mbr, "gbr": gbr}
+        return {"id": qid, "qfi": r.choice([0, 5, 9, 63]), "gate": (r.choice([0, 0, 0, 1]), r.choice([0, 0, 0, 1])), "mbr": mbr, "gbr": gbr,
+                "perm": r.randrange(1, 1 << 30) if r.random() < 0.3 else 0}
 
     # -- session level
     def establish(self, conn, npairs=None, nqers=None, node_id=None, draws=None, cp_v6=False, **kw):
@@ -518,7 +548,15 @@ class Gen:
         if apps and npairs >= 1 and r.random() < 0.6 and "sdf" not in pdrs[0]:
             # the first pair is classified by a provisioned application id: uplink takes the first "out" flow, downlink the first "in" flow
             appid = r.choice(sorted(apps))
-            for p_ in pdrs[:2]:
+            # a provisioned flow is taken verbatim: a downlink flow that does not name the UE ("to any") gives every
+            # session that uses it the same match key. Keys of live PDRs are distinct inside C03's envelope, so such a
+            # flow is used by one live session at a time.
+            dl_flow = next((f for f in apps[appid] if f[1] == "in"), None)
+            if dl_flow is not None and dl_flow[4][0] != "assigned":
+                for s_ in self.sessions.values():
+                    if any(p2.get("app_sem") and p2["iface"] == 1 and p2["app_sem"][0] == dl_flow[0] for p2 in s_["pdrs"].values()):
+                        appid = None
+            for p_ in (pdrs[:2] if appid is not None else []):
                 want = "out" if p_["iface"] == 0 else "in"
                 p_["appid"] = appid
                 p_["app_sem"] = next((f for f in apps[appid] if f[1] == want), None)
@@ -611,21 +649,24 @@ class Gen:
             return
         s = self.sessions[lseid]
         kinds = ["upd_far", "upd_far", "upd_far_em", "upd_far_em", "upd_qer", "add_pair", "rm_pair", "upd_pdr_prec", "upd_far_unknown",
-                 "cp_fseid", "upd_far_buffer"]
+                 "cp_fseid", "upd_far_buffer", "upd_far_mixed", "upd_far_mixed"]
         kind = kind or r.choice(kinds)
         ies, intent = [], {"op": "mod", "seq": seq, "req": P.SM_REQ, "wf": True, "lseid": lseid, "expect": "accept", "kind": kind,
                            "markers": [], "cp_seid_before": s["cp_seid"]}
         dl_fars = [f for f in s["fars"].values() if f["id"] % 2 == 0]
-        if kind in ("upd_far", "upd_far_em", "upd_far_buffer") and dl_fars:
-            n = r.choice([1, 1, 2])
+        if kind in ("upd_far", "upd_far_em", "upd_far_buffer", "upd_far_mixed") and dl_fars:
+            n = r.choice([1, 1, 2]) if kind != "upd_far_mixed" else r.choice([2, 3])
             for f in r.sample(dl_fars, min(n, len(dl_fars))):
                 old = copy.deepcopy(f)
-                if kind == "upd_far_buffer":
+                # mixed: several Update FARs of different shapes in one message (with / without Outer Header Creation)
+                if kind == "upd_far_buffer" or (kind == "upd_far_mixed" and r.random() < 0.5):
                     nf = {"id": f["id"], "action": 12, "fwd": {}}
                 else:
                     nf = {"id": f["id"], "action": 2, "fwd": {"dst_if": 0, "ohc": (self._teid(), ip(192, 168, r.randrange(4, 8), r.randrange(1, 250)))}}
                     if kind == "upd_far_em":
                         nf["fwd"]["smflags"] = r.choice([2, 2, 3, 1])
+                if r.random() < 0.3:
+                    nf["perm"] = r.randrange(1, 1 << 30)
                 ies.append(far_ie(P.UPDATE_FAR, nf))
                 if nf.get("fwd", {}).get("smflags", 0) & 2:
                     oo = ref_far(old, lseid)
@@ -1003,6 +1044,10 @@ def mon_c14(case, intents, obs):
             break
         got = [{"src": m.get("src"), "dst": m.get("dst"), "teid": m.get("teid")} for m in o.get("markers", [])]
         want = []
+        if o.get("em_queued"):
+            out.append(("end-markers-queued-while-disabled", f"event {i}: {o['em_queued']} end markers in the plug-in's queue although end markers are "
+                        "disabled (nothing drains it: the 1025th blocks the receive loop)", i))
+            break
         if it.get("op") == "mod" and it.get("expect") == "accept" and enabled:
             rs = replies_of(o)
             if rs and rs[0][1].get("cause") == P.CAUSE_ACCEPTED:
@@ -1182,4 +1227,38 @@ def mon_c06(case, intents, obs):
                 want_alloc = any(p.get("ue") == "chv4" for p in it.get("pdrs", []))
                 if want_alloc and len(live) < size - 2 and pools.get("ip_free", 0) == 0:
                     out.append(("refused-while-not-all-held", f"event {i}: allocation refused with {len(live)} live sessions on a pool of {size - 2}", i))
+    return out
+
+
+# ------------------------------------------------------------------------------------------------
+# soak scenarios: valid requests only, more of them than any queue inside the agent holds
+
+def soak_scenarios(rng):
+    """-> (name, case, intents, number of probe events at the end). Events marked q are not dumped by the harness."""
+    out = []
+    for em in (False, True):
+        g = Gen(rng, cfg=default_cfg(end_marker=em))
+        g.setup(0)
+        l = g.establish(0, npairs=1, nqers=1, chv4=False, choose=False)
+        for _ in range(1600):      # three in four carry the send-end-marker flag
+            g.modify(l, kind="upd_far_em")
+        g.heartbeat(0)
+        g.setup(1)
+        g.heartbeat(1)
+        g.delete(l)
+        for e in g.events[2:-4]:
+            e["q"] = True
+        out.append((f"1600-end-marker-updates/end_marker={em}", {"cfg": g.cfg, "events": g.events}, g.intents, 4))
+    for hb in (True, False):
+        g = Gen(rng, cfg=default_cfg(hb_timer=hb))
+        for _ in range(130):
+            g.heartbeat(0)                # before association: nothing drains the heartbeat reset queue
+        g.setup(0)
+        for _ in range(130):
+            g.heartbeat(0)
+        l = g.establish(0, npairs=1, nqers=1, chv4=False, choose=False)
+        g.delete(l)
+        for e in g.events[:-3]:
+            e["q"] = True
+        out.append((f"130-heartbeats-before-and-after-association/hb_timer={hb}", {"cfg": g.cfg, "events": g.events}, g.intents, 3))
     return out
